@@ -7,4 +7,19 @@ func init() {
 		Assumptions: []string{"Go defers run on panic unwinding", "go/types + go/cfg model of the working tree"},
 		ThoroughConfigs: []string{"elpscheck", "386"},
 	})
+	registerProp(PropSpec{ID: "C02",
+		Rules: []string{"CENSUS.CallFrame.Terminal", "CENSUS.CallFrame.TROBlock", "CENSUS.CallStack.Frames", "CENSUS.CallFrame.HeightLogical", "CENSUS.CallFrame.TailIterations",
+			"CALLERS.TerminalFID", "CALLERS.markTailRec", "CALLERS.decrementMarkTailRec", "CALLERS.extractMarkTailRec",
+			"TRO.block-first", "TRO.blocked-never-terminal", "TRO.terminal-then-tail", "TRO.debugger-gate", "TRO.mark-consumed",
+			"PAIR.terminal-reset", "PAIR.frame"},
+		Explanation: "frame-accounting protocol of tail-call elimination: who may mark a frame terminal or blocked, that a terminal frame returns its evaluator call verbatim, that blocked frames are blocked before anything is evaluated and never return terminal expressions, that recognition is gated on Debugger==nil, and that the two call loops consume marks only after the limit checks",
+		Assumptions: []string{"go/types + go/cfg model of the working tree", "static call resolution (dynamic calls through LBuiltin values are the registry, handled by the census of writers)"},
+		ThoroughConfigs: []string{"elpscheck", "386"},
+	})
+	registerProp(PropSpec{ID: "C03",
+		Rules: []string{"REG.resolved", "REG.formals", "REG.arity"},
+		Explanation: "panic classes of the interpreter decided per site",
+		Assumptions: []string{"go/types + go/cfg model of the working tree"},
+		ThoroughConfigs: []string{"elpscheck", "386"},
+	})
 }
